@@ -3,6 +3,7 @@ package main
 // SMT script assembly and the solver portfolio.
 
 import (
+	"go/token"
 	"bytes"
 	"context"
 	"fmt"
@@ -306,4 +307,36 @@ func truncate(s string, n int) string {
 
 func sanitizeFile(s string) string {
 	return strings.NewReplacer("/", "_", "(", "", ")", "", "*", "p", "$", "S", "#", "H", " ", "_").Replace(s)
+}
+
+
+// LemmaObligations builds a pseudo function context holding one obligation per `lemma`: the lemma must follow from the
+// prelude, the spec definitions and the axioms/lemmas stated before it.
+func (w *World) LemmaObligations() (*FnCtx, string, error) {
+	if _, err := w.SpecDefs(); err != nil {
+		return nil, "", err
+	}
+	fc := &FnCtx{w: w, key: "lemmas", kindCnt: map[string]int{}}
+	for i, ax := range w.cs.Axioms {
+		if ax.Lemma {
+			tags := ax.Tags
+			if len(tags) == 0 {
+				tags = []string{"C02"}
+			}
+			fc.obls = append(fc.obls, &Obligation{Name: "lemmas/lemma/" + ax.Name, Func: "lemmas", Kind: "lemma", Label: ax.Name, Tags: tags,
+				Goal: w.lemmaTerms[i], LogLen: len(fc.log), Pos: token.Position{Filename: ax.File, Line: ax.Line}, Text: "lemma " + ax.Name + ":" + ax.Text})
+		}
+		fc.log = append(fc.log, "(assert "+w.lemmaTerms[i]+")")
+	}
+	var sb strings.Builder
+	sb.WriteString(prelude)
+	sb.WriteString(ufDecls)
+	keys := append([]string{}, w.heapOrder...)
+	sort.Strings(keys)
+	for _, k := range keys {
+		fmt.Fprintf(&sb, "(declare-const %s!0 %s)\n", k, w.heapSorts[k])
+	}
+	sb.WriteString(w.lits.Defs())
+	sb.WriteString(w.specCore)
+	return fc, sb.String(), nil
 }
